@@ -91,6 +91,9 @@ type VC struct {
 	errs      []string
 	errGlobals map[string]bool
 	muted     bool // inside a Go function evaluated for a contract: no obligations
+	curSt     *State
+	sl        *slicer
+	frameFacts []*FrameFact
 	qfacts    []*QFact
 	witnesses []*Witness
 	deltas    []Term
@@ -152,6 +155,12 @@ func (vc *VC) oblige(kind, label, site string, guard, goal Term, src string) *Ob
 	}
 	o := &Obligation{Name: name, Func: vc.fname, Kind: kind, Label: label, PrefixLen: len(vc.lines), Guard: guard, Goal: goal, Src: src}
 	vc.obls = append(vc.obls, o)
+	if label == "safety" && vc.curSt != nil && len(vc.qfacts) > 0 {
+		// implicit safety obligations: offer the quantified assumptions
+		// (e.g. "every element is non-nil") at the integer locals
+		env := &Env{vc: vc, st: vc.curSt}
+		vc.addInstances(o, vc.witnessCandidates(nil, env))
+	}
 	return o
 }
 
@@ -333,9 +342,34 @@ func (vc *VC) havocHeap(st *State, name string) {
 		return
 	}
 	st.heaps[name] = vc.fresh("hv:"+strings.Trim(name, "|"), info.Sort)
+	vc.refFacts(info, st.heaps[name], st.wm)
+}
+
+// refFacts states that every reference stored in a (fresh version of a) heap
+// is below the given watermark and well formed for its type. Callers bump the
+// watermark before havocing, so that references to objects allocated by the
+// callee are covered.
+func (vc *VC) refFacts(info *HeapInfo, h Term, wm Term) {
+	if info.Typ == nil {
+		return
+	}
+	switch info.Typ.Underlying().(type) {
+	case *types.Pointer, *types.Slice, *types.Map, *types.Chan:
+	default:
+		return
+	}
+	switch info.Kind {
+	case "field", "ptr":
+		v := sel(h, Term{"er", SInt})
+		vc.lines = append(vc.lines, fmt.Sprintf("(assert (forall ((er Int)) (! %s :pattern (%s))))", vc.typeFacts(v, info.Typ, wm).S, v.S))
+	case "elem":
+		v := sel(sel(h, Term{"er", SInt}), Term{"ei", SInt})
+		vc.lines = append(vc.lines, fmt.Sprintf("(assert (forall ((er Int) (ei Int)) (! %s :pattern (%s))))", vc.typeFacts(v, info.Typ, wm).S, v.S))
+	}
 }
 
 func (vc *VC) havocAllHeaps(st *State) {
+	vc.bumpWatermark(st)
 	for _, n := range vc.sortedHeapNames() {
 		if vc.errGlobals[n] {
 			continue
@@ -348,7 +382,6 @@ func (vc *VC) havocAllHeaps(st *State) {
 		}
 		vc.havocHeap(st, n)
 	}
-	vc.bumpWatermark(st)
 }
 
 func (vc *VC) bumpWatermark(st *State) {
